@@ -19,7 +19,10 @@ Proof. unfold c_msem. leaves_tac. Qed.
 Lemma c_dotsem_nc o sn r : leaves not_clo (c_dotsem o sn r).
 Proof. unfold c_dotsem. leaves_tac. Qed.
 Lemma c_callsem_nc f ds : leaves not_clo (c_callsem f ds).
-Proof. unfold c_callsem. leaves_tac. Qed.
+Proof.
+  unfold c_callsem. apply leaves_bind_any; intros vs.
+  apply L_Vis; intros v. constructor; exact I.
+Qed.
 
 (* try_join!{ let a = x0 |> >>> |> {blk} <<< ~=> g, y0 ~|> h ~|> i, map => hd } *)
 Definition ex_inp : input :=
